@@ -524,7 +524,9 @@ def _use(run, P):
             if isinstance(x, ast.Call) and dotted(x.func) == "self._emit" and x.args:
                 n_emit += 1
                 pre = string_prefix(x.args[0]) or ""
-                if pre.lstrip().startswith("#"):
+                whole = string_value(x.args[0])
+                # (a constant comment that fits any line is never cut)
+                if pre.lstrip().startswith("#") and not (whole is not None and len(whole) <= 40):
                     run.ob("C20.use", m_, x, False,
                            construct=f"{name_}: a comment is emitted through the line wrapper: {norm(x, 60)}",
                            why="the wrapper continues a long line with a backslash; the rest of a "
